@@ -91,6 +91,22 @@ func runC17(c *core.Ctx) {
 		return
 	}
 	defer pool.Close()
+	// plus command shapes drawn from the catalogue (flag combinations nobody listed by hand)
+	{
+		r := c.Rng("shapes", 0)
+		have := map[string]bool{}
+		for _, cmd := range c17Cmds {
+			have[joinArgs(cmd)] = true
+		}
+		for n := 0; n < 8; {
+			sp := randomCmd(r, "x", "a", "2021/01/24")
+			if !have[joinArgs(sp.Args)] {
+				have[joinArgs(sp.Args)] = true
+				c17Cmds = append(c17Cmds, sp.Args)
+				n++
+			}
+		}
+	}
 	type job struct {
 		world int
 		cmd   int
